@@ -37,7 +37,7 @@ META = {
 }
 
 
-def observables(mk, label, obj, R, depth_ops=True):
+def observables(mk, label, obj, R, pd_claims=True):
     """All observable checks of a matrix object against its dense reference."""
     items = []
     n, m = R.shape
@@ -61,15 +61,21 @@ def observables(mk, label, obj, R, depth_ops=True):
             items.append(Item(f"(u@{label}.inv)@dense", (u @ obj.inv) @ R, u))
         if isinstance(obj, M.SymmetricMatrix):
             items.append(Item(f"{label} symmetric", R, R.T))
+            g0 = stubs.EIGH_LOG["generic"]
             w = obj.eigval
             Q = obj.eigvec.array
-            items.append(Item(f"{label} eigvec diag(eigval) eigvec^T", Q @ np.diag(w) @ Q.T, R))
-            items.append(Item(f"{label} eigvec orthogonal", Q.T @ Q, ml.eye(mk, n)))
+            if stubs.EIGH_LOG["generic"] == g0:
+                # (when the class just forwards to LAPACK's eigh on an arbitrary array the stub's contract *is*
+                # the statement to check, so there is nothing of mici's to decide)
+                items.append(Item(f"{label} eigvec diag(eigval) eigvec^T", Q @ np.diag(w) @ Q.T, R))
+                items.append(Item(f"{label} eigvec orthogonal", Q.T @ Q, ml.eye(mk, n)))
         if isinstance(obj, M.PositiveDefiniteMatrix):
             S = obj.sqrt
             items.append(Item(f"{label}.sqrt@sqrt.T", S.array @ S.T.array, R))
             items.append(Item(f"{label}.sqrt@(sqrt.T@v)", S @ (S.T @ v), R @ v))
-            if mk.symbolic:
+            if not pd_claims:
+                pass
+            elif mk.symbolic:
                 for k in range(1, n + 1):
                     items.append(Item(f"{label} claims PD: minor{k}>0", ml.det(R[:k, :k]) > 0, None, kind="true"))
             else:
@@ -110,11 +116,7 @@ def prob_leaf(mk, kind, n, ops=()):
     for i, op in enumerate(ops):
         obj, R = apply_op(mk, op, obj, R, i)
         label = f"{op}({label})"
-    items = observables(mk, label, obj, R)
-    if ops and ops[-1] == "sqrt":
-        # the defining property of the square root taken at this level
-        pass
-    return items
+    return observables(mk, label, obj, R, pd_claims=not kind.startswith(HEAVY))
 
 
 def prob_product(mk, kl, kr, n, ops=()):
@@ -159,17 +161,18 @@ def prob_implicit(mk, kind):
 
 
 UNARY = ["T", "inv", "neg", "mul", "div", "sqrt"]
+PROBS = {"leaf": prob_leaf, "prod": prob_product, "implicit": prob_implicit}
 
 
-def _case_fn(prob):
-    def run(rec, **kw):
-        rec.encoded(M.Matrix.__matmul__, M.Matrix.__rmatmul__, M.Matrix.__mul__, M.Matrix.__truediv__, M.Matrix.__neg__)
-        kinds = [kw[k] for k in ("kind", "kl", "kr") if k in kw]
-        for k in kinds:
-            _encode_kind(rec, k)
-        rec.assume("denominators recorded during execution are non-zero")
-        run_problem(rec, prob, kw, key_prefix=f"{_keyfor(kw)}:", timeout_ms=60000)
-    return run
+def run_group(rec, probs):
+    """One worker handles a group of problems (amortises interpreter start-up)."""
+    rec.encoded(M.Matrix.__matmul__, M.Matrix.__rmatmul__, M.Matrix.__mul__, M.Matrix.__truediv__, M.Matrix.__neg__)
+    rec.assume("denominators recorded during execution are non-zero")
+    for pname, kw in probs:
+        for k in ("kind", "kl", "kr"):
+            if k in kw:
+                _encode_kind(rec, kw[k])
+        run_problem(rec, PROBS[pname], kw, key_prefix=f"{pname}/{_keyfor(kw)}:", timeout_ms=60000)
 
 
 def _keyfor(kw):
@@ -200,35 +203,49 @@ def _encode_kind(rec, kind):
         rec.encoded(getattr(M, best[1]))
 
 
+D2 = [("inv", "T"), ("T", "inv"), ("mul", "inv"), ("inv", "mul"), ("neg", "inv"), ("sqrt", "inv"), ("inv", "sqrt"),
+      ("mul", "sqrt"), ("div", "T"), ("mul", "mul"), ("inv", "inv"), ("sqrt", "T")]
+QUICK_D2_KINDS = ["pos_diagonal", "tri_lower", "trifact_neg_lower", "dense_pd", "dense_square", "eig_pd", "lowrank_sym",
+                  "lowrank_square_neg", "blockdiag_pd", "scaled_orthogonal", "inv_lu", "dense_def_neg"]
+HEAVY = ("lowrank_pd", "dense_pd_product")  # Cholesky/sqrtm chains: seconds per obligation
+
+
 def cases(tier):
     out = []
     thorough = tier == "thorough"
+
+    def G(name, probs, timeout_s=1200):
+        out.append(Case(name, run_group, {"probs": probs}, timeout_s=timeout_s))
+
     for n in (1, 2):
         for kind in ml.leaves(n):
-            out.append(Case(f"leaf/{kind}/n{n}", _case_fn(prob_leaf), {"kind": kind, "n": n}, timeout_s=600))
-            for op in UNARY:
-                out.append(Case(f"leaf/{kind}/n{n}/{op}", _case_fn(prob_leaf), {"kind": kind, "n": n, "ops": (op,)}, timeout_s=900))
+            heavy = kind.startswith(HEAVY)
+            G(f"leaf/{kind}/n{n}/base", [("leaf", {"kind": kind, "n": n})])
+            if heavy and not thorough and n == 2:
+                G(f"leaf/{kind}/n{n}/unary", [("leaf", {"kind": kind, "n": n, "ops": (op,)}) for op in ("T", "inv", "mul")])
+                continue
+            if heavy and n == 2:
+                for op in UNARY:
+                    G(f"leaf/{kind}/n{n}/{op}", [("leaf", {"kind": kind, "n": n, "ops": (op,)})])
+            else:
+                G(f"leaf/{kind}/n{n}/unary", [("leaf", {"kind": kind, "n": n, "ops": (op,)}) for op in UNARY])
         for kind in ml.RECT:
-            out.append(Case(f"rect/{kind}/n{n}", _case_fn(prob_leaf), {"kind": kind, "n": n}, timeout_s=600))
-            for op in ("T", "neg", "mul", "div"):
-                out.append(Case(f"rect/{kind}/n{n}/{op}", _case_fn(prob_leaf), {"kind": kind, "n": n, "ops": (op,)}, timeout_s=600))
-    for kind in ("identity", "scaled", "pos_scaled"):
-        out.append(Case(f"implicit/{kind}", _case_fn(prob_implicit), {"kind": kind}, timeout_s=300))
-    # depth 2: op o op on every leaf (n=2 in thorough, a representative subset in quick)
-    d2 = [("inv", "T"), ("T", "inv"), ("mul", "inv"), ("inv", "mul"), ("neg", "inv"), ("sqrt", "inv"), ("inv", "sqrt"),
-          ("mul", "sqrt"), ("div", "T"), ("mul", "mul"), ("inv", "inv"), ("sqrt", "T")]
-    quick_d2_kinds = ["pos_diagonal", "tri_lower", "trifact_neg_lower", "dense_pd", "dense_square", "eig_pd", "lowrank_pd",
-                      "lowrank_square_neg", "blockdiag_pd", "scaled_orthogonal", "inv_lu", "dense_def_neg"]
+            G(f"rect/{kind}/n{n}", [("leaf", {"kind": kind, "n": n})]
+              + [("leaf", {"kind": kind, "n": n, "ops": (op,)}) for op in ("T", "neg", "mul", "div")])
+    G("implicit", [("implicit", {"kind": k}) for k in ("identity", "scaled", "pos_scaled")])
+    # depth 2: op o op
     for n in ((1, 2) if thorough else (2,)):
-        for kind in (ml.leaves(n) if thorough else quick_d2_kinds):
-            for ops in d2:
-                out.append(Case(f"leaf/{kind}/n{n}/{'.'.join(ops)}", _case_fn(prob_leaf), {"kind": kind, "n": n, "ops": ops},
-                                timeout_s=900))
+        for kind in (ml.leaves(n) if thorough else QUICK_D2_KINDS):
+            if kind.startswith(HEAVY) and n == 2:
+                for ops in D2:
+                    G(f"leaf/{kind}/n{n}/{'.'.join(ops)}", [("leaf", {"kind": kind, "n": n, "ops": ops})])
+            else:
+                G(f"leaf/{kind}/n{n}/depth2", [("leaf", {"kind": kind, "n": n, "ops": ops}) for ops in D2])
     # products
     pair_kinds = ["diagonal", "tri_lower", "dense_square", "dense_pd", "eig_sym", "lowrank_sym", "orthogonal", "scaled_identity",
                   "invtri_upper", "trifact_neg_upper"]
     if thorough:
-        pair_kinds = [k for k in ml.leaves(2) if not k.startswith("blockdiag")]
+        pair_kinds = [k for k in ml.leaves(2) if not k.startswith("blockdiag") and not k.startswith(HEAVY)] + ["lowrank_pd"]
     prods = []
     if thorough:
         for kl in pair_kinds:
@@ -238,24 +255,16 @@ def cases(tier):
         for i, kl in enumerate(pair_kinds):
             prods.append((kl, pair_kinds[(i + 1) % len(pair_kinds)]))
             prods.append((kl, pair_kinds[(i + 3) % len(pair_kinds)]))
+    opsets = ((), ("inv",), ("T",), ("mul",)) if not thorough else ((), ("inv",), ("T",), ("mul",), ("neg",), ("inv", "T"))
     for kl, kr in prods:
-        out.append(Case(f"prod/{kl}@{kr}", _case_fn(prob_product), {"kl": kl, "kr": kr, "n": 2}, timeout_s=900))
-        for op in (("inv",), ("T",), ("mul",)) if not thorough else (("inv",), ("T",), ("mul",), ("neg",), ("inv", "T")):
-            out.append(Case(f"prod/{kl}@{kr}/{'.'.join(op)}", _case_fn(prob_product), {"kl": kl, "kr": kr, "n": 2, "ops": op},
-                            timeout_s=900))
-    for kl, kr in (("dense_rect", "block_col"), ("block_row", "block_col"), ("dense_pd", "dense_rect"), ("block_col", "dense_rect")):
-        out.append(Case(f"prod/{kl}@{kr}", _case_fn(prob_product), {"kl": kl, "kr": kr, "n": 1}, timeout_s=600))
+        G(f"prod/{kl}@{kr}", [("prod", {"kl": kl, "kr": kr, "n": 2, "ops": ops}) for ops in opsets])
+    G("prod/rect", [("prod", {"kl": kl, "kr": kr, "n": 1}) for kl, kr in
+                    (("dense_rect", "block_col"), ("block_row", "block_col"), ("dense_pd", "dense_rect"), ("block_col", "dense_rect"))])
     return out
 
 
 def replay(cand):
-    name = cand["case"]
-    if name.startswith("implicit/"):
-        prob = prob_implicit
-    elif name.startswith("prod/"):
-        prob = prob_product
-    else:
-        prob = prob_leaf
+    prob = PROBS[cand["key"].split("/", 1)[0]]
     p = cand.get("payload") or {}
     kw = p.get("kwargs", {})
     if "ops" in kw and isinstance(kw["ops"], list):
